@@ -126,7 +126,7 @@ theorem isolatedRead_eq (st : IStream) (off n : BitVec 64) :
       else (mergeFlags_ls st (((st.clear).seekg off.toInt).read n.toNat).1,
             (((st.clear).seekg off.toInt).read n.toNat).2,
             (((st.clear).seekg off.toInt).read n.toNat).1.gcount == n.toNat) := by
-  unfold isolatedRead mergeFlags_ls
+  rw [LoadTie.isolatedRead_hand]; unfold mergeFlags_ls
   split <;> rfl
 
 theorem toInt_of_lt (x : BitVec 64) (h : x.toNat < 9223372036854775808) : x.toInt = Int.ofNat x.toNat := by
@@ -219,7 +219,7 @@ def SecOutcome.reads : SecOutcome → Bool
 theorem secLoadData_snd (c : Cls) (tr : List Trans) (ls : LoadSt) (b : SecBuf) :
     (secLoadData c tr ls b).2 =
       (secOutcome c tr ls.st b.stype b.size b.offset b.streamSize b.data.isNone).apply b := by
-  unfold secLoadData secOutcome secOff
+  rw [LoadTie.secLoadData_hand]; unfold secOutcome secOff
   cases c <;> simp only [] <;>
    (split
     · rfl
@@ -237,7 +237,7 @@ theorem secLoadData_st (c : Cls) (tr : List Trans) (ls : LoadSt) (b : SecBuf) :
     (secLoadData c tr ls b).1.st =
       if (secOutcome c tr ls.st b.stype b.size b.offset b.streamSize b.data.isNone).reads
       then (isolatedRead ls.st (secOff tr b.offset) b.size).1 else ls.st := by
-  unfold secLoadData secOutcome secOff
+  rw [LoadTie.secLoadData_hand]; unfold secOutcome secOff
   cases c <;> simp only [] <;>
    (split
     · rfl
@@ -257,7 +257,7 @@ theorem secLoadData_allocs (c : Cls) (tr : List Trans) (ls : LoadSt) (b : SecBuf
       match secOutcome c tr ls.st b.stype b.size b.offset b.streamSize b.data.isNone with
       | .readFail | .loaded _ | .loadedEmpty => ls.allocs ++ [(sec64_load_data_alloc b.size).toNat]
       | _ => ls.allocs := by
-  unfold secLoadData secOutcome secOff
+  rw [LoadTie.secLoadData_hand]; unfold secOutcome secOff
   cases c <;> simp only [] <;>
    (split
     · rfl
